@@ -344,8 +344,11 @@ func (eng *Engine) runTop(c *FnCtx, fn *ssa.Function, fs *FuncSpec) {
 	for _, g := range fs.Ghosts {
 		ghosts[g.Name] = env.vars[g.Name]
 	}
+	c.ghosts0 = map[string]Val{}
+	c.ghostBlk = map[string]*ssa.BasicBlock{}
 	for _, l := range fs.Lets {
 		ghosts[l.Name] = c.freshVal("let_"+l.Name, eng.resolveType(env.pkg, l.Type))
+		c.ghosts0[l.Name] = ghosts[l.Name]
 	}
 	c.ghosts = ghosts
 	c.modLocs = env.evalModLocs(fs.Modifies, fs.ModSrc)
@@ -399,8 +402,8 @@ func (eng *Engine) runTop(c *FnCtx, fn *ssa.Function, fs *FuncSpec) {
 		}
 		anyRet = append(anyRet, r.cond)
 		renv := f.callEnv(fn, fs, args, r.results, r.st, c.entry)
-		for k, v := range ghosts {
-			renv.vars[k] = v
+		for k := range ghosts {
+			renv.vars[k] = c.ghostAt(k, r.blk)
 		}
 		renv.lookup = freeLookup(r.st)
 		renv.entry = f.entryParams()
